@@ -221,6 +221,163 @@ def r_cplx_modulus(rep, f):
         rep.inconc("R-CPLX-MODULUS", "R-CPLX-MODULUS:floor", "only %d |re| + |im| magnitudes found in the complex factorisation (expected >= 3)" % n)
 
 
+def _zero_env(c, truth):
+    """names (locals / rendered element reads) that are exactly 0 when condition c has the value `truth`"""
+    k = c.get("k")
+    if k in ("DropTemps", "Paren"):
+        return _zero_env(c["e"], truth)
+    if k == "Unary" and c.get("op") == "Not":
+        return _zero_env(c["e"], not truth)
+    if k == "Binary" and c["op"] in ("And", "Or"):
+        if (c["op"] == "And") == truth:
+            d = dict(_zero_env(c["l"], truth))
+            d.update(_zero_env(c["r"], truth))
+            return d
+        return {}
+    if k == "Binary" and c["op"] in ("Eq", "Ne") and (c["op"] == "Eq") == truth:
+        l, r = c["l"], c["r"]
+        if l.get("k") == "Lit":
+            l, r = r, l
+        if not (r.get("k") == "Lit" and r.get("lk") in ("Float", "Int") and float(str(r["v"]).replace("_", "")) == 0.0):
+            return {}
+        out = {}
+
+        def parts(e):
+            # v   |   v.abs()   |   a.abs() + b.abs()
+            if e.get("k") == "Binary" and e["op"] == "Add":
+                return parts(e["l"]) and parts(e["r"])
+            if e.get("k") == "MethodCall" and e.get("name") == "abs" and not e.get("args"):
+                e = e["recv"]
+            elif e.get("k") == "Binary":
+                return False
+            if e.get("k") in ("Path", "Index"):
+                out[e.get("name") if e.get("k") == "Path" else tast.render(e)] = Poly()
+                return True
+            return False
+        whole_is_sum = l.get("k") == "Binary" and l["op"] == "Add"
+        if whole_is_sum:
+            # a sum is zero with every term zero only when the terms are magnitudes
+            if not all(t_.get("k") == "MethodCall" and t_.get("name") == "abs" for t_ in (l["l"], l["r"])):
+                return {}
+        return out if parts(l) else {}
+    return {}
+
+
+def _zero_alts(c, truth):
+    """alternative zero substitutions (one per way the condition can have the value `truth`)"""
+    k = c.get("k")
+    if k in ("DropTemps", "Paren"):
+        return _zero_alts(c["e"], truth)
+    if k == "Unary" and c.get("op") == "Not":
+        return _zero_alts(c["e"], not truth)
+    if k == "Binary" and c["op"] in ("And", "Or") and (c["op"] == "And") != truth:
+        # A || B true, or A && B false: either side alone suffices
+        return [d for d in _zero_alts(c["l"], truth) + _zero_alts(c["r"], truth) if d]
+    d = _zero_env(c, truth)
+    return [d] if d else []
+
+
+def r_zero_skip(rep, f):
+    """work skipped because a multiplier is zero is really a no-op: for every `if <zero test> { continue }` and every
+    `if <non-zero test> { updates }` in the factorisations and solves, the skipped updates are evaluated with the tested
+    quantities set to 0 and must all vanish. A complex multiplier is zero only when BOTH parts are: skipping on one part
+    drops the contribution of the other."""
+    n = 0
+    for top in (LU, LUC, SOL, SOLC):
+        if top not in f.bodies:
+            continue
+        for b in scope_bodies(f, top):
+            fn = b["def"]
+            short = fn.split("::")[-1]
+
+            def check_region(stmts, env, why, at):
+                """-> first non-vanishing update (node, text) or None"""
+                env = dict(env)
+                for st in stmts:
+                    e = st
+                    while e is not None and e.get("k") in ("ExprStmt", "Semi", "DropTemps"):
+                        e = e.get("e")
+                    if e is None:
+                        continue
+                    k = e.get("k")
+                    if k == "Let" and e["pat"].get("k") == "PBind" and e.get("init") is not None:
+                        v = _mini(e["init"], env)
+                        env[e["pat"]["name"]] = v if v is not None else Poly.atom(e["pat"]["name"] + "'")
+                    elif k == "AssignOp" and e.get("op", "").startswith(("Add", "Sub")):
+                        v = _mini(e["r"], env)
+                        if v is not None and not v.is_zero():
+                            return e, "`%s` adds %r" % (tast.render(e)[:60], v)
+                    elif k == "Assign":
+                        v = _mini(e["r"], env)
+                        lhs = _mini(e["l"], env) if e["l"].get("k") in ("Path", "Index") else None
+                        if v is not None and lhs is not None and v != lhs:
+                            return e, "`%s` stores %r" % (tast.render(e)[:60], v)
+                    elif k in ("For", "While", "Loop"):
+                        body_ = e.get("body")
+                        r_ = check_region(body_.get("stmts", []) + ([body_["tail"]] if body_.get("tail") is not None else []), env, why, at) if body_ else None
+                        if r_:
+                            return r_
+                    elif k == "If":
+                        ze_t, ze_f = _zero_env(e["cond"], True), _zero_env(e["cond"], False)
+                        # branch selection under the current substitution
+                        known_true = bool(ze_t) and all(nm in env and isinstance(env[nm], Poly) and env[nm].is_zero() for nm in ze_t)
+                        known_false = bool(ze_f) and all(nm in env and isinstance(env[nm], Poly) and env[nm].is_zero() for nm in ze_f)
+                        branches = []
+                        if not known_false or known_true:
+                            branches.append(e["then"])
+                        if e.get("else") is not None and not known_true:
+                            branches.append(e["else"])
+                        if known_false and not known_true:
+                            branches = [e["else"]] if e.get("else") is not None else []
+                        for br in branches:
+                            if br.get("k") == "Block":
+                                r_ = check_region(br.get("stmts", []) + ([br["tail"]] if br.get("tail") is not None else []), env, why, at)
+                            else:
+                                r_ = check_region([br], env, why, at)
+                            if r_:
+                                return r_
+                    elif k == "Block":
+                        r_ = check_region(e.get("stmts", []) + ([e["tail"]] if e.get("tail") is not None else []), env, why, at)
+                        if r_:
+                            return r_
+                return None
+
+            for blk in tast.find(b["body"], lambda z: z.get("k") == "Block"):
+                sts = blk.get("stmts", []) + ([blk["tail"]] if blk.get("tail") is not None else [])
+                for j, st in enumerate(sts):
+                    e = st
+                    while e is not None and e.get("k") in ("ExprStmt", "Semi", "DropTemps"):
+                        e = e.get("e")
+                    if e is None or e.get("k") != "If":
+                        continue
+                    then = e["then"]
+                    t_stmts = then.get("stmts", []) + ([then["tail"]] if then.get("tail") is not None else []) if then.get("k") == "Block" else [then]
+                    inner = [q for q in t_stmts]
+                    only_continue = len(inner) == 1 and tast.contains(inner[0], lambda z: z.get("k") == "Continue") and not tast.contains(inner[0], lambda z: z.get("k") in ("Assign", "AssignOp", "Call", "MethodCall"))
+                    region, alts = None, []
+                    if only_continue:
+                        alts = _zero_alts(e["cond"], True)
+                        region = sts[j + 1:]
+                    elif e.get("else") is None:
+                        alts = _zero_alts(e["cond"], False)
+                        region = t_stmts
+                    if not alts or not region:
+                        continue
+                    n += 1
+                    key = "R-ZERO-SKIP:%s:%d" % (short, n)
+                    r_, env = None, alts[0]
+                    for env in alts:
+                        r_ = check_region(region, env, None, e)
+                        if r_:
+                            break
+                    if r_:
+                        rep.violation("R-ZERO-SKIP", "R-ZERO-SKIP:%s:%s" % (short, "+".join(sorted(env))), "with %s == 0 (the test `%s`) the skipped code is not a no-op: %s" % (", ".join(sorted(env)), tast.render(e["cond"])[:60], r_[1][:200]), e.get("sp"))
+                    else:
+                        rep.ok("R-ZERO-SKIP", key, "skipped updates vanish when %s == 0" % ", ".join(sorted(env)))
+    if n < 2:
+        rep.inconc("R-ZERO-SKIP", "R-ZERO-SKIP:floor", "only %d zero-multiplier shortcut(s) found in the factorisations (expected >= 2)" % n)
+
+
 def r_lu_siblings(rep, f):
     if LU not in f.bodies or LUC not in f.bodies:
         return
